@@ -97,7 +97,8 @@ theorem decodeControlCore_body (w : UInt16) (hL : hasLength w = true) (hS : hasN
   have h5 : ¬ ((body ++ rest).length + 1 + 1 + 1 + 1 + 1 + 1 + 1 + 1 + 1 + 1 < 10) := by omega
   simp only [bind_apply, len_apply, len_bytes, hL, hS, Bool.not_true, Bool.false_eq_true, if_false, List.length_cons,
     h5, readU16_cons, M.ite_apply, word16_be16, fail_apply]
-  rw [hlen, if_neg (by omega), if_neg (by simp; omega)]
+  rw [hlen, if_neg (by omega), if_neg (by simp; omega), subM_ok (by omega)]
+  simp only []
   have hsub := inSub_ok (ε' := List DErr) (s := body ++ rest) (greedy : M Bytes DErr (List Res))
     (n := 12 + body.length - 12) (by simp)
   rw [hsub]
